@@ -105,6 +105,8 @@ Definition apply_target (target : bytes) (st : state) (ca : cache) : state * cac
   | _ =>
     (* st.Depth() >= MaxLevel, Depth() = len(ExecPath) - 1 as a Go int *)
     if MaxLevel + 1 <=? len (s_path st) then (st, ca, target, SErr EGen None)
+    (* current, _ := st.Where(); current == sym: refused *)
+    else if bytes_eqb (where_sym st) target then (st, ca, target, SErr EGen None)
     else match st_down st target with
          | Ok st' => (st', cache_push ca, target, SOk)
          | Err e => (st, ca, target, SErr e None)
